@@ -590,6 +590,43 @@ func runC09(r *core.Run) {
 		return
 	}
 
+	// ---- 4b. the real binary: a transaction lasts until COMMIT / ROLLBACK / the end of the procedure ---------------
+	// nothing in between ends it - not a nested execution (EXECUTE, SOURCE, a prepared statement, a function call):
+	// the hook points of the binary show how often COMMIT ran and that the table stays locked in between
+	for _, sc := range []struct{ name, sql, extra string }{
+		{"execute", "UPDATE `f1.csv` SET n = n + 1;\nEXECUTE 'SELECT 1 AS one';\nUPDATE `f1.csv` SET n = n + 1;\n", ""},
+		{"source", "UPDATE `f1.csv` SET n = n + 1;\nSOURCE `repo/inc.sql`;\nUPDATE `f1.csv` SET n = n + 1;\n", "SELECT 2 AS two;\n"},
+		{"prepared", "PREPARE ps FROM 'SELECT 3 AS three';\nSELECT n FROM `f1.csv` FOR UPDATE;\nEXECUTE ps;\nUPDATE `f1.csv` SET n = n + 1;\n", ""},
+		{"function", "DECLARE noop FUNCTION () AS BEGIN VAR @q := 1; END;\nVAR @z;\nUPDATE `f1.csv` SET n = n + 1;\n@z := noop();\nUPDATE `f1.csv` SET n = n + 1;\n", ""},
+	} {
+		bs := binScenario{Name: "txb." + sc.name, Tables: map[string]string{"f1.csv": rowsCSV(3, 0)}, SQL: sc.sql}
+		if sc.extra != "" {
+			bs.Tables["inc.sql"] = sc.extra
+		}
+		d, res, points := runScenario(r, bs, nil, true)
+		_ = os.RemoveAll(d)
+		if res.Exit != 0 {
+			core.Fail("transaction-boundary scenario %s failed: %s", sc.name, res.Stderr)
+		}
+		commits, released := 0, false
+		held := false
+		for _, pt := range points {
+			switch {
+			case pt.Point == "tx.commit.begin":
+				commits++
+			case pt.Point == "load.done" && pt.Base == "f1.csv":
+				held = true
+			case pt.Point == "cf.remove" && pt.Base == "f1.csv" && held && commits == 0:
+				released = true // a control file of the held table removed before any COMMIT began
+			}
+		}
+		r.Count("transaction_boundary_scenarios", 1)
+		if commits != 1 || released {
+			r.Violation("ObsHeldUntilEnd:transaction-ended-early:"+sc.name, fmt.Sprintf("procedure %q: %d COMMITs ran (1 expected: the automatic one at the end), table released early: %v", sc.sql, commits, released),
+				map[string]interface{}{"sql": sc.sql})
+		}
+	}
+
 	// ---- 5. strict layer over everything that ran ---------------------------
 	acc, rej := validateStrict(r, all)
 	finishEvidence(drift, firstDrift, acc, rej)
